@@ -8,7 +8,7 @@ def run(ctx):
     ctx.build_harness()
     cases = []
     for mode in ("list", "timecode", "pictiming"):
-        r = ctx.tlc_ok("SeiSyntax", "Sei_%s_%s.cfg" % (mode, t), workers=14, timeout=3000, heap="16g", stack="1g")
+        r = ctx.tlc_ok("SeiSyntax", "Sei_%s_%s.cfg" % (mode, t), workers=14, timeout=3000, heap="16g", stack="256m")
         cases += r.exported
     inp = ctx.write_ndjson("sei.ndjson", cases)
     core.absorb(ctx, ctx.harness(["c17-replay", "-in", inp], timeout=3000))
